@@ -50,6 +50,12 @@ class Chunks(Harness):
              "fastq": [[[1, 1]], [[1, 2], [2, 1]]],
              "mfasta": [[[1, 3]], [[1, 3], [1, 2]], [[1, 4], [1, 1], [1, 2]],
                         [[1, 2], [1, 5], [1, 1]]]}       # a short record, then one longer than two reads of the first one's size
+        # very unequal widths in one column: a number wider than everything before it in the buffer's first line
+        D["bed3"].append([[1, 1, 1], [1, 4, 5], [2, 1, 1]])
+        # names whose lengths differ but add up to a multiple of the first one's (2 + 3 + 1 = 3 x 2)
+        S["fastq"].append([[2, 1], [3, 1], [1, 1], [4, 1]])
+        S["fasta2"].append([[2, 1], [3, 1], [1, 1]])
+        S["mfasta"].append([[2, 1], [3, 2], [1, 1]])
         if tier == "thorough":
             D["bed3"].append([[1, 1, 1], [3, 1, 1], [1, 1, 1], [1, 2, 2]])
             S["fastq"].append([[1, 1], [1, 3], [2, 2]])
